@@ -171,6 +171,7 @@ class Ctx:
         self.minimums = []        # (name, observed, required, ok)
         self._viol_seen = {}
         self.replay_n = 0
+        os.makedirs(BUILD, exist_ok=True)
         self.scratch = tempfile.mkdtemp(prefix="verif-%s-" % prop, dir=os.path.join(BUILD))
 
     # ---- bookkeeping -------------------------------------------------
